@@ -196,3 +196,97 @@ def h_doc_default(inp, body):
         same = str(documented) == str(actual)
     return {"reproduced": not same, "observed": {"option": inp["option"], "documented": documented,
                                                  "default_options": repr(actual)}}
+
+
+def h_driver_stage(inp, body):
+    """Runs the REAL stage function (hydraulics / heat_transfer / bidirectional) and the real
+    newton_raphson / finalize_iteration with the linear-solve function stubbed: the stub returns
+    (new, old) arrays for every unknown of the stage.  The unknown named in the obligation changes
+    by `delta` in every iteration, all others do not change, the residual is zero.  The property
+    demands that the stage does not return normally (it must raise PipeflowNotConverged)."""
+    import pandapipes
+    import sys
+    importlib.import_module("pandapipes.pipeflow")
+    pf = sys.modules["pandapipes.pipeflow"]
+    from pandapipes.pf.pipeflow_setup import init_options, PipeflowNotConverged
+    stage, method, bad = inp["stage"], inp["method"], inp["unknown"]
+    unknowns = inp["unknowns"]
+    if "delta" not in inp:
+        # try a large change and one between the mass-flow and temperature tolerances
+        for d in (1.0, 1e-4):
+            out = h_driver_stage(dict(inp, delta=d), body)
+            if out["reproduced"]:
+                return out
+        return out
+    delta = float(inp["delta"])
+    net = pandapipes.create_empty_network(fluid="water")
+    init_options(net, nonlinear_method=method, mode="bidirectional" if stage == "bidirectional" else "sequential",
+                 max_iter_hyd=3, max_iter_therm=3, max_iter_bidirect=3)
+    net["_active_pit"] = {"branch": np.zeros((1, 39)), "node": np.zeros((1, 18))}
+    net["_pit"] = {"branch": np.zeros((1, 39)), "node": np.zeros((1, 18))}
+    counter = {"n": 0}
+
+    def stub(net_):
+        counter["n"] += 1
+        res, filt = [], []
+        for u in unknowns:
+            if u == bad:
+                res += [np.array([delta * counter["n"]]), np.array([delta * (counter["n"] - 1)])]
+            elif u == "residual":
+                continue
+            else:
+                res += [np.array([0.0]), np.array([0.0])]
+            filt.append(np.array([0]) if u == "mdotslack" else None)
+        resid = np.array([delta if bad == "residual" else 0.0])
+        return res, resid, filt
+    names = {"hydraulics": "solve_hydraulics", "heat_transfer": "solve_temperature",
+             "bidirectional": "solve_bidirectional"}
+    saved = {}
+    for nm in (names[stage], "reduce_pit", "extract_results_active_pit", "identify_active_nodes_branches",
+               "rerun_hydraulics", "rerun_heat_transfer"):
+        saved[nm] = getattr(pf, nm)
+    try:
+        setattr(pf, names[stage], stub)
+        for nm in ("reduce_pit", "extract_results_active_pit", "identify_active_nodes_branches",
+                   "rerun_hydraulics", "rerun_heat_transfer"):
+            setattr(pf, nm, lambda *a, **k: None)
+        fn = getattr(pf, stage if stage != "heat_transfer" else "heat_transfer")
+        outcome = "returned"
+        try:
+            fn(net)
+        except PipeflowNotConverged:
+            outcome = "PipeflowNotConverged"
+        except Exception as e:  # noqa
+            outcome = "raised %s: %s" % (type(e).__name__, e)
+    finally:
+        for nm, f in saved.items():
+            setattr(pf, nm, f)
+    bad_accept = outcome == "returned"
+    return {"reproduced": bool(bad_accept),
+            "observed": {"stage": stage, "method": method, "unknown_changing_by": {bad: delta},
+                         "tolerances": {k: net["_options"][k] for k in ("tol_m", "tol_p", "tol_T", "tol_res")},
+                         "outcome": outcome, "net.converged": bool(net.converged),
+                         "iterations": counter["n"],
+                         "internal_results_keys": sorted(net.get("_internal_results", {}).keys())}}
+
+
+def h_circ_pump_direction(inp, body):
+    """a mass-flow circulation pump with a negative set flow: the hydraulic calculation converges,
+    then CirculationPump.extract_results raises UserWarning -- after junction and pipe results have
+    been written and with net.converged == True"""
+    import pandapipes as pp
+    net = pp.create_empty_network(fluid="water")
+    j = pp.create_junctions(net, 2, pn_bar=5, tfluid_k=300)
+    pp.create_circ_pump_const_mass_flow(net, j[0], j[1], p_flow_bar=5, mdot_flow_kg_per_s=-1.0, t_flow_k=350)
+    pp.create_pipe_from_parameters(net, j[1], j[0], 1.0, 0.05, k_mm=0.1)
+    outcome = "returned"
+    try:
+        pp.pipeflow(net, mode="hydraulics", max_iter_hyd=50)
+    except Exception as e:  # noqa
+        outcome = "%s" % type(e).__name__
+    numbers = {t: int(np.isfinite(net[t].values.astype(float)).sum()) for t in net.keys()
+               if isinstance(t, str) and t.startswith("res_") and hasattr(net[t], "values") and net[t].size}
+    bad = outcome not in ("returned", "PipeflowNotConverged") or \
+        (outcome != "returned" and (bool(net.converged) or any(v > 0 for v in numbers.values())))
+    return {"reproduced": bool(bad), "observed": {"outcome": outcome, "net.converged": bool(net.converged),
+                                                  "finite_result_entries": numbers}}
